@@ -262,22 +262,34 @@ def gen_matrix(rng, n, p, mode=None):
     return np.asfortranarray(X.reshape(n, p))
 
 
-def to_csc(X, rng=None, explicit_zeros=False):
+def to_csc(X, rng=None, explicit_zeros=False, full_null=False):
     """scipy CSC of X; optionally with some explicitly stored zeros"""
     from scipy import sparse
     Xs = sparse.csc_matrix(X)
     if explicit_zeros and rng is not None:
         n, p = X.shape
         data, indices, indptr = [], [], [0]
+        # all-zero columns: stored entirely as explicit zeros half of the time (what `X[:, j] = 0` leaves behind)
+        full = {j for j in range(p) if not np.any(X[:, j]) and (full_null or rng.random() < 0.5)}
         for j in range(p):
             for i in range(n):
-                if X[i, j] != 0 or rng.random() < 0.15:
+                if X[i, j] != 0 or rng.random() < (0.15 if j not in full else 1.0):
                     data.append(X[i, j])
                     indices.append(i)
             indptr.append(len(data))
         Xs = sparse.csc_matrix((np.array(data, dtype=float), np.array(indices, dtype=np.int32),
                                 np.array(indptr, dtype=np.int32)), shape=(n, p))
     return Xs
+
+
+def case_csc(case):
+    """the CSC matrix handed to the solver for a case: canonical, or (case.explicit_zeros = seed) with explicitly
+    stored zeros, deterministic in the seed so that model and implementation see the same structure"""
+    import random as _random
+    ez = getattr(case, "explicit_zeros", None)
+    if ez is None:
+        return to_csc(case.X)
+    return to_csc(case.X, _random.Random(ez), explicit_zeros=True, full_null=ez < 0)   # negative seed: every null column fully stored
 
 
 def csc_tokens(Xs):
